@@ -353,3 +353,47 @@ func vlBaseName(p string) string {
 	}
 	return p[k:]
 }
+
+// VerifC06_MoveFolderUnderFaults: moving a directory when the backend cannot
+// rename it (cross-device) and one more operation fails: no file is lost -- each
+// one is still at the source or has arrived, complete, at the destination.
+func VerifC06_MoveFolderUnderFaults() {
+	rec, fs := vNewFs()
+	_ = fs.MkDir("/a/sub")
+	_ = fs.WriteFile("/a/f", []byte("f"), 0o644)
+	_ = fs.WriteFile("/a/g", []byte("g"), 0o644)
+	_ = fs.WriteFile("/a/sub/h", []byte("h"), 0o644)
+	_ = fs.MkDir("/d")
+	rec.reset()
+	renameFails := verif.Bool("renameIsNotPossible")
+	faultAt := verif.Len("faultAt", 0, 60) // 0: no further fault
+	count := 0
+	probeOfSourceFailed := false
+	rec.before = func(op *vOp) error {
+		count++
+		if renameFails && op.name == "Rename" {
+			return &os.LinkError{Op: "rename", Old: op.path, New: op.path2, Err: syscall.EXDEV}
+		}
+		if count == faultAt && op.name != "Close" {
+			// a failing probe (Stat / Open / Readdirnames) of a source DIRECTORY is the recorded known finding
+			if op.name == "Stat" || op.name == "Open" || op.name == "OpenFile" || op.name == "Readdirnames" || op.name == "Readdir" {
+				probeOfSourceFailed = op.path == "/a" || op.path == "/a/sub" // the source directories only, not the files in them
+			}
+			return &os.PathError{Op: "fault", Path: op.path, Err: syscall.EACCES}
+		}
+		return nil
+	}
+	err := fs.MoveWithContext(context.Background(), "/a", "/d/m")
+	rec.before = nil
+	after := vIndex(vSnapshot(rec.inner, "/"))
+	for _, f := range []struct{ rel, data string }{{"/f", "f"}, {"/g", "g"}, {"/sub/h", "h"}} {
+		src, atSrc := after["/a"+f.rel]
+		dst, atDst := after["/d/m"+f.rel]
+		verif.AssertKnown("a_move_never_loses_a_file", (atSrc && src.data == f.data) || (atDst && dst.data == f.data),
+			"KF-C06-move-fallback-deletes-unreadable-source", renameFails && probeOfSourceFailed)
+		if err == nil {
+			verif.Assert("successful_move_arrives_complete", atDst && dst.data == f.data)
+		}
+	}
+	verif.Assert("no_handle_left_open", rec.opens == rec.closes)
+}
